@@ -48,7 +48,7 @@ class GherkinLine:
             cells.append(
                 {
                     "column": col + self.indent + cell_indent,
-                    "text": re.sub(r"[^\S\n]*$", "", lstripped_cell, flags=re.U),
+                    "text": re.sub(r"[^\S\n]*\Z", "", lstripped_cell, flags=re.U),
                 }
             )
         return cells
